@@ -265,3 +265,21 @@ PROPS['C04'] = dict(
     bounds='<= 8 sessions, <= 3 third parties, <= 90 actions, <= 600 virtual s', trusted_base=TB_SIM,
     assumptions=AS_SIM + ['liveness band: 58..62 s of silence is exercised but not judged', 'a spoofer has a different IP address than its victim (the server compares addresses, not ports)'],
 )
+
+PROPS['C13'] = dict(
+    bin='c13', sources=['props/c13.cc'] + SIMSRC2, unit_objs=UNIT, images=IMGS, engine='rc',
+    quick=dict(workers=8, cases=6000, budget=40, min_nontrivial=200),
+    thorough=dict(workers=16, cases=300000, budget=1200, min_nontrivial=10000),
+    rule='case = REAL iodine client (-T NULL/PRIVATE/TXT/SRV/MX/CNAME/A or autodetect) against a scripted server (reference implementation of the '
+         'protocol document) that answers the version step honestly and the login step with a generated reply under downstream encoding T/S/U/V/R: '
+         'server-address and client-address fields from {valid quad, valid quad + shell text (;cmd |cmd $(cmd) `cmd` && quotes redirections newline tab), '
+         'not-dotted-quad numerics (10.2, 0x0a.1.2.3, 010.1.1.1, 1.2.3.4.5, 256.1.1.1, ...), shell text only, 60..200 characters of digits and '
+         'metacharacters, arbitrary bytes}, mtu and netmask fields from {valid, boundary integers incl. overflow, valid + shell text, junk}, optional '
+         'embedded NUL; 1 in 8 replies are arbitrary bytes; 1 in 12 are benign (control: must produce exactly the two configuration commands). '
+         'Oracle: every string given to system() is split on spaces; every word is one of the fixed words of a benign run, a strict dotted quad, or a '
+         'decimal integer 201..1500; no control characters. non-trivial iff the login step was reached, the reply parses as four fields and >= 1 '
+         'field is not a plain valid value',
+    engine_text='rapidcheck over choice tapes; simnet hosting the real iodine client; scripted server (refproto); system() observed at the shim',
+    bounds='login replies <= 400 bytes; Linux command templates (the harness builds with -DLINUX)', trusted_base=TB_SIM,
+    assumptions=AS_SIM + ['only the Linux branch of tun_setip/tun_setmtu is compiled (BSD/Windows command lines are not exercised)'],
+)
